@@ -4,10 +4,19 @@ import z3
 
 from engine import symex
 from engine.symex import AND, OR, NOT, IMPLIES, ITE, assume, int_var, real_var, bool_var, SymBool, SymInt, concretize
-from engine.e1 import Harness, run_ob, replay, spec  # noqa
+from engine.e1 import Harness, run_ob, replay as e1_replay, spec  # noqa
+from engine import crosshair_runner
+from engine.crosshair_runner import run_ch  # noqa
 from props import common
 
 MOD = 'props.C17_upstream'
+CH = 'props/ch/c17_dims.py'
+
+
+def replay(body):
+    if 'file' in body.get('args', {}):
+        return crosshair_runner.replay(body)
+    return e1_replay(body)
 
 
 class RecClient(object):
@@ -409,6 +418,12 @@ def obligations(tier, seed):
     for fwd, keys in ((['time'], ['time', 'elevation']), (['TIME', 'Elevation'], ['time', 'elevation', 'dim_x']), ([], ['time']),
                       (['dim_x'], ['DIM_X', 'time'])):
         specs.append(spec(MOD, 'FwdDimensions', 'fwd-dimensions/%s/%s' % ('+'.join(fwd) or 'none', '+'.join(keys)), cfg=dict(fwd=fwd, keys=keys)))
+    to = 300 if tier == 'thorough' else 120
+    specs.append(crosshair_runner.spec(MOD, CH, 'forwarded_dimensions_are_exactly_the_configured_names', 'fwd-dimensions/names-drawn-from-a-pool-of-6', timeout=to, cost=to,
+                                       functions=['MapQuery.dimensions_for_params']))
+    specs.append(crosshair_runner.spec(MOD, CH, 'twin_forwarded', 'twin/fwd-dimensions-any-names', kind='witness', timeout=60))
+    specs.append(crosshair_runner.spec(MOD, CH, 'forwarded_dimensions_are_exactly_the_configured_names', 'canary/dimension forwarded when its name starts a configured name', kind='canary', timeout=120, cost=30,
+                                       patches={'mapproxy.layer': [["if k.lower() in params)", "if any(p.startswith(k.lower()) for p in params))"]]}))
     for gname, levels in (('utm_ul', [0, 2, 5]), ('merc_ll', [0, 1, 4]), ('frac_ll', [1, 3])):
         for level in (levels if tier == 'thorough' else levels[:2]):
             for coverage in (False, True):
